@@ -35,7 +35,10 @@ def gen_cases(tier, seed):
         ls = [int(x) for x in rng.integers(0, lmax + 1, size=nsh)]
         pats = bases.type_patterns(nsh)
         tp = list(pats[(i // 2) % len(pats)])
-        lo, hi = (0.1, 10.0) if eri else (0.05, 200.0)
+        # ERI cases use a narrow exponent range: the equivalences are exact identities, and the accuracy of the two
+        # evaluations (C04's subject, including its recursion-amplification finding for shells spanning 0.1..10)
+        # must not leak into this comparison
+        lo, hi = (0.3, 3.0) if eri else (0.05, 200.0)
         shells = []
         centers, gcls = bases.rand_centers(rng, nsh, None, scale=1.0)
         for k, (l, t) in enumerate(zip(ls, tp)):
